@@ -436,10 +436,14 @@ Octagonal_Shape<T>
 template <typename T>
 inline void
 Octagonal_Shape<T>::add_constraints(const Constraint_System& cs) {
+  // An unsupported constraint must leave `*this' unchanged:
+  // work on a copy and commit at the end.
+  Octagonal_Shape tmp(*this);
   for (Constraint_System::const_iterator i = cs.begin(),
          i_end = cs.end(); i != i_end; ++i) {
-    add_constraint(*i);
+    tmp.add_constraint(*i);
   }
+  m_swap(tmp);
 }
 
 template <typename T>
@@ -457,10 +461,14 @@ Octagonal_Shape<T>::add_recycled_congruences(Congruence_System& cgs) {
 template <typename T>
 inline void
 Octagonal_Shape<T>::add_congruences(const Congruence_System& cgs) {
+  // An unsupported congruence must leave `*this' unchanged:
+  // work on a copy and commit at the end.
+  Octagonal_Shape tmp(*this);
   for (Congruence_System::const_iterator i = cgs.begin(),
          cgs_end = cgs.end(); i != cgs_end; ++i) {
-    add_congruence(*i);
+    tmp.add_congruence(*i);
   }
+  m_swap(tmp);
 }
 
 template <typename T>
